@@ -25,6 +25,10 @@ def gen(tier, rng, own=()):
             for cpu in cpus:
                 scns.append(igz.scenario(len(scns), api, list(st), wrap=mode, calls=calls, tail_ai=ta, tail_ao=to, cap=60000, mem=k % 3, prefill=k % 3, meta=dict(meta, cpu=cpu)))
                 k += 1
+        if len(st) and k % 4 == 0:      # and a model-guided schedule (the harness walks the least-visited room / hand-over choices from the decoder's current state)
+            scns.append(igz.scenario(len(scns), "inflate", list(st), wrap=mode, calls=[], tail_ai=len(st), tail_ao=1 << 16, cap=max(400, 8 * len(st)), mem=k % 3, prefill=k % 3,
+                                     meta=dict(meta, cpu=cpus[0], adaptive=1 + k)))
+            k += 1
     parents = small_streams(rng, tier)
     for name, raw in parents:
         plain = inflfam.py_inflate(raw)
